@@ -261,7 +261,10 @@ func c12RunCase(x *h.Ctx, c c12Case) {
 	}
 
 	// ---- reference: satisfaction matrix
-	nFilters, errOK := 0, false
+	// errOK: somewhere the verdict itself is undefined (several capture groups): nothing is demanded of Match's verdict.
+	// objErrAny: somewhere an object meets a filter: Match may fail with the documented ErrUnsupportedFilter, but when it
+	// does not fail, everything is demanded (an object never satisfies a filter, optional or not).
+	nFilters, errOK, objErrAny := 0, false, false
 	for _, d := range ref.Descriptors {
 		if d.Constraints != nil {
 			for _, f := range d.Constraints.Fields {
@@ -281,6 +284,9 @@ func c12RunCase(x *h.Ctx, c c12Case) {
 			sat[di][ci] = s
 			if s.errOK {
 				errOK = true
+			}
+			if s.objErr {
+				objErrAny = true
 			}
 			if s.ok {
 				avail[d.ID] = true
@@ -322,6 +328,9 @@ func c12RunCase(x *h.Ctx, c c12Case) {
 	for _, b := range built {
 		x.Class("cred-" + b.spec.Fmt)
 	}
+	if objErrAny {
+		x.Class("object-meets-filter")
+	}
 	if !decided {
 		x.Class("undecided:" + undecidedWhy)
 	} else if exists {
@@ -354,6 +363,8 @@ func c12RunCase(x *h.Ctx, c c12Case) {
 	// O3
 	if decided {
 		switch {
+		case merr != nil && !noCreds && objErrAny && errors.Is(merr, ErrUnsupportedFilter):
+			x.Class("match:documented-unsupported-filter")
 		case merr != nil && !noCreds:
 			x.Violate("O3-unexpected-error:"+c12ErrClass(merr), "Match returned an error that is neither documented for this input nor ErrNoCredentials: %v", merr)
 		case noCreds && exists:
@@ -565,6 +576,16 @@ func c12RunCase(x *h.Ctx, c c12Case) {
 			x.Class("O4-O5-not-demanded:contradictory-bounds")
 		}
 	}
+	// re-matching the presented credentials evaluates every descriptor against every selected credential: if an object
+	// meets a filter there, Validate may fail with the documented error although the wallet's Match did not
+	validateMayErr := false
+	for ci := range distinct {
+		for di := range ref.Descriptors {
+			if sat[di][ci].objErr {
+				validateMayErr = true
+			}
+		}
+	}
 	descHits := map[string]int{}
 	for ci := range distinct {
 		n := 0
@@ -596,7 +617,9 @@ func c12RunCase(x *h.Ctx, c c12Case) {
 	got, verr := subForValidate.Validate(*envelope, *def)
 	if verr != nil {
 		x.Class("validate-own:rejected")
-		if unambiguous && !blockedByEarlierVP {
+		if validateMayErr && errors.Is(verr, ErrUnsupportedFilter) {
+			x.Class("validate-own:documented-unsupported-filter")
+		} else if unambiguous && !blockedByEarlierVP {
 			x.Class("O4-checked")
 			x.Violate("O4-validate-rejects-own-submission:"+c.Env, "Validate rejects the submission the builder made for the same definition: %v\nsubmission: %s", verr, c12MustJSON(x, subForValidate))
 		}
@@ -651,7 +674,9 @@ func c12RunCase(x *h.Ctx, c c12Case) {
 			}
 		}
 		fields, ferr := def.ResolveConstraintsFields(own)
-		if ferr != nil {
+		if ferr != nil && validateMayErr && errors.Is(ferr, ErrUnsupportedFilter) {
+			x.Class("O6-documented-unsupported-filter")
+		} else if ferr != nil {
 			x.Violate("O6-resolve-fields-error", "ResolveConstraintsFields failed on validated credentials: %v", ferr)
 		} else {
 			c12CompareFields(x, want, fields)
@@ -674,7 +699,7 @@ func c12RunCase(x *h.Ctx, c c12Case) {
 				}
 			}
 		}
-		if len(merged) > len(own) && len(x.Violations()) == 0 {
+		if len(merged) > len(own) && ferr == nil && len(x.Violations()) == 0 {
 			x.Class("O6-with-foreign-entries")
 			rep := c.Repeat
 			if rep < 1 {
@@ -1012,9 +1037,15 @@ func c12ShapeClasses(x *h.Ctx, ref *c12RefDef, built []c12Built) {
 					r := c12MatchFilter(f.filter, v)
 					res := "no"
 					if r.errOK {
-						res = "documented-error"
+						res = "undefined(documented-error)"
 					} else if r.match {
 						res = "yes"
+					}
+					if r.objErr {
+						res += "(object:may-error)"
+						if f.Optional != nil && *f.Optional {
+							x.Class("optional-filtered-field-meets-object")
+						}
 					}
 					shape := c12JSONType(v)
 					if arr, ok := v.([]any); ok {
